@@ -257,6 +257,13 @@ def find(req):
         r["reproduced"] = True
         return r
     ob = req.get("obligation", "")
+    if "member-size-check" in ob or "out-of-subset" in ob or not ob:
+        import sys as _sys
+        _sys.path.insert(0, os.path.dirname(os.path.abspath(__file__)))
+        import archive_probe
+        r = archive_probe.oversize_members()
+        if r is not None:
+            return r
     for key, fn in AMPLIFIERS:
         if key in ob:
             ok, inputs, obs = fn()
